@@ -1,1 +1,442 @@
-// harness for rs/anda_object_store/src/encryption.rs (mounted by #[cfg(kani)] hook)
+// @module encryption::verif_kani
+// Kani harnesses for rs/anda_object_store/src/encryption.rs — property C09 (cryptographic-binding
+// kernels). Modelling assumption: AES-256-GCM is an ideal AEAD, so "every modification is detected"
+// reduces to "everything a reader uses is a function of what is bound into a nonce or an AAD":
+// injectivity of derive_gcm_nonce / chunk_aad / metadata_auth_aad, plus the pre-cipher downgrade
+// decision of verify_metadata.
+use super::*;
+include!("/verif/harness/common.rs");
+
+fn bytes_differ(a: &[u8], b: &[u8]) -> bool {
+    if a.len() != b.len() {
+        return true;
+    }
+    let mut i = 0;
+    let mut d = false;
+    while i < a.len() {
+        if a[i] != b[i] {
+            d = true;
+        }
+        i += 1;
+    }
+    d
+}
+
+// K1 -------------------------------------------------------------------------------------------
+// @check id=C09 tier=quick cap=300 role=nonce_injective
+// @fns encryption::derive_gcm_nonce
+// @bound every 96-bit base nonce, every pair of 64-bit chunk indices
+#[kani::proof]
+#[kani::unwind(14)]
+fn c09_nonce_unique_per_chunk_index() {
+    let base: [u8; 12] = kani::any();
+    let i: u64 = kani::any();
+    let j: u64 = kani::any();
+    let ni = derive_gcm_nonce(&base, i);
+    let nj = derive_gcm_nonce(&base, j);
+    if i != j {
+        assert!(bytes_differ(&ni, &nj), "two chunk indices of one object never share a nonce");
+    }
+    assert!(ni[0] == base[0] && ni[1] == base[1] && ni[2] == base[2] && ni[3] == base[3], "salt bytes kept");
+    let z = derive_gcm_nonce(&base, 0);
+    assert!(!bytes_differ(&z, &base), "chunk 0 uses the base nonce");
+    kani::cover!(i != j && (i as u32) == (j as u32), "indices equal in the low 32 bits");
+    kani::cover!(i != j && ni[4] == nj[4], "counter low byte equal, nonce still differs");
+}
+
+// K2 -------------------------------------------------------------------------------------------
+// @check id=C09 tier=quick cap=300 role=chunk_aad_injective
+// @fns encryption::chunk_aad
+// @bound every two (chunk_size, chunk_index) pairs of full-width u64
+#[kani::proof]
+#[kani::unwind(60)]
+fn c09_chunk_aad_binds_size_and_index() {
+    let (c1, i1): (u64, u64) = (kani::any(), kani::any());
+    let (c2, i2): (u64, u64) = (kani::any(), kani::any());
+    let a1 = chunk_aad(c1, i1);
+    let a2 = chunk_aad(c2, i2);
+    if c1 != c2 || i1 != i2 {
+        assert!(bytes_differ(&a1, &a2), "a chunk cannot be moved to another index or read under another chunk size");
+    }
+    assert!(a1.len() == 52, "36 bytes of domain separation + 8 + 8");
+    kani::cover!(c1 == c2 && i1 != i2, "same size, other index");
+    kani::cover!(c1 != c2 && i1 == i2, "same index, other size");
+    kani::cover!(c1 == i2 && i1 == c2 && c1 != i1, "size and index swapped");
+    std::mem::forget((a1, a2));
+}
+
+// K3 -------------------------------------------------------------------------------------------
+fn sym_string(len: usize) -> String {
+    let mut v = Vec::with_capacity(len);
+    let mut i = 0;
+    while i < len {
+        let b: u8 = kani::any();
+        kani::assume(b >= 0x20 && b < 0x7f);
+        v.push(b);
+        i += 1;
+    }
+    unsafe { String::from_utf8_unchecked(v) }
+}
+fn opt_string(present: bool, len: usize) -> Option<String> {
+    if present { Some(sym_string(len)) } else { None }
+}
+fn sym_tag() -> ByteArray<16> {
+    ByteArray::from(kani::any::<[u8; 16]>())
+}
+
+/// Presence shapes: 0 = everything present, 1 = every optional field absent,
+/// 2 = sealed-v1 shape (generation and commit time absent, the rest present).
+fn base_meta(shape: u8) -> Metadata {
+    let all = shape == 0;
+    let v1 = shape == 2;
+    let mut aes_tags = Vec::new();
+    aes_tags.push(sym_tag());
+    Metadata {
+        size: kani::any(),
+        e_tag: opt_string(all || v1, 2),
+        original_tag: opt_string(all || v1, 1),
+        original_version: opt_string(all || v1, 1),
+        aes_nonce: ByteArray::from(kani::any::<[u8; 12]>()),
+        aes_tags,
+        chunk_size: if all || v1 { Some(kani::any()) } else { None },
+        chunk_aad_version: if all || v1 { Some(kani::any()) } else { None },
+        auth_nonce: None,
+        auth_tag: None,
+        generation: opt_string(all, 2),
+        committed_at_ms: if all { Some(kani::any()) } else { None },
+    }
+}
+
+fn other_string(old: &Option<String>, variant: u8) -> Option<String> {
+    // variant 0: same length, different bytes; 1: presence flipped; 2: one byte longer
+    match (old, variant) {
+        (Some(s), 0) => {
+            let n = sym_string(s.len());
+            kani::assume(bytes_differ(n.as_bytes(), s.as_bytes()));
+            Some(n)
+        }
+        (Some(_), 1) => None,
+        (None, _) => Some(sym_string(1)),
+        (Some(s), _) => Some(sym_string(s.len() + 1)),
+    }
+}
+
+/// Field numbers for the single-site tamper harnesses.
+const F_SIZE: u8 = 0;
+const F_ETAG: u8 = 1;
+const F_OTAG: u8 = 2;
+const F_OVER: u8 = 3;
+const F_NONCE: u8 = 4;
+const F_CHUNK: u8 = 5;
+const F_AADV: u8 = 6;
+const F_TAG0: u8 = 7;
+const F_TAGS_LEN: u8 = 8;
+const F_GEN: u8 = 9;
+const F_COMMIT: u8 = 10;
+
+fn tamper(m: &Metadata, field: u8, variant: u8) -> Metadata {
+    let mut t = m.clone();
+    match field {
+        F_SIZE => {
+            t.size = kani::any();
+            kani::assume(t.size != m.size);
+        }
+        F_ETAG => t.e_tag = other_string(&m.e_tag, variant),
+        F_OTAG => t.original_tag = other_string(&m.original_tag, variant),
+        F_OVER => t.original_version = other_string(&m.original_version, variant),
+        F_NONCE => {
+            let n: [u8; 12] = kani::any();
+            kani::assume(bytes_differ(&n, m.aes_nonce.as_slice()));
+            t.aes_nonce = ByteArray::from(n);
+        }
+        F_CHUNK => {
+            t.chunk_size = if variant == 1 && m.chunk_size.is_some() { None } else { Some(kani::any()) };
+            kani::assume(t.chunk_size != m.chunk_size);
+        }
+        F_AADV => {
+            t.chunk_aad_version = if variant == 1 && m.chunk_aad_version.is_some() { None } else { Some(kani::any()) };
+            kani::assume(t.chunk_aad_version != m.chunk_aad_version);
+        }
+        F_TAG0 => {
+            let n: [u8; 16] = kani::any();
+            kani::assume(bytes_differ(&n, m.aes_tags[0].as_slice()));
+            t.aes_tags[0] = ByteArray::from(n);
+        }
+        F_TAGS_LEN => {
+            if variant == 1 {
+                t.aes_tags.pop(); // truncated tag list
+            } else {
+                t.aes_tags.push(sym_tag()); // extended tag list
+            }
+        }
+        F_GEN => t.generation = other_string(&m.generation, variant),
+        _ => {
+            t.committed_at_ms = if variant == 1 && m.committed_at_ms.is_some() { None } else { Some(kani::any()) };
+            kani::assume(t.committed_at_ms != m.committed_at_ms);
+        }
+    }
+    t
+}
+
+fn seal_covers(field: u8, variant: u8, shape: u8) {
+    let loc = Path::from("k");
+    let m1 = base_meta(shape);
+    let m2 = tamper(&m1, field, variant);
+    let a1 = metadata_auth_aad(&loc, &m1);
+    let a2 = metadata_auth_aad(&loc, &m2);
+    assert!(bytes_differ(&a1, &a2), "two documents that differ in this field have different seals");
+    kani::cover!((variant == 0) == (a1.len() == a2.len()), "AAD length changes iff the field's shape (presence/length) changes");
+    std::mem::forget((m1, m2, a1, a2, loc));
+}
+
+macro_rules! seal {
+    ($name:ident, $f:expr, $v:expr, $shape:expr) => {
+        #[kani::proof]
+        #[kani::unwind(260)]
+        fn $name() {
+            seal_covers($f, $v, $shape);
+        }
+    };
+}
+
+// Every cover pair cannot be satisfied by every variant (a same-length change never changes the
+// AAD length and vice versa), so the variants are grouped by which witness they must satisfy.
+// @check id=C09 tier=quick cap=600 role=seal_covers_field harness=c09_seal_size,c09_seal_etag_bytes,c09_seal_otag_bytes,c09_seal_over_bytes,c09_seal_nonce,c09_seal_chunk_size,c09_seal_aad_version,c09_seal_tag0,c09_seal_gen_bytes,c09_seal_commit
+// @fns encryption::metadata_auth_aad, encryption::push_bytes, encryption::push_opt_str, encryption::push_opt_u64, encryption::push_opt_u8
+// @bound m1 = all fields present with symbolic contents (strings of 1-2 printable bytes, one 16-byte tag, full-width integers); m2 = m1 with one field replaced by a different value of the same shape
+// @assume AES-256-GCM is an ideal AEAD: a tag verifies only for the exact (key, nonce, aad) it was made for
+seal!(c09_seal_size, F_SIZE, 0, 0);
+seal!(c09_seal_etag_bytes, F_ETAG, 0, 0);
+seal!(c09_seal_otag_bytes, F_OTAG, 0, 0);
+seal!(c09_seal_over_bytes, F_OVER, 0, 0);
+seal!(c09_seal_nonce, F_NONCE, 0, 0);
+seal!(c09_seal_chunk_size, F_CHUNK, 0, 0);
+seal!(c09_seal_aad_version, F_AADV, 0, 0);
+seal!(c09_seal_tag0, F_TAG0, 0, 0);
+seal!(c09_seal_gen_bytes, F_GEN, 0, 0);
+seal!(c09_seal_commit, F_COMMIT, 0, 0);
+
+// presence flips (Some <-> None) and length changes: the "stripping / extending" tampers
+// @check id=C09 tier=quick cap=600 role=seal_covers_field_presence harness=c09_seal_etag_stripped,c09_seal_gen_stripped,c09_seal_commit_stripped,c09_seal_tags_truncated,c09_seal_tags_extended,c09_seal_gen_longer
+// @fns encryption::metadata_auth_aad, encryption::push_bytes, encryption::push_opt_str, encryption::push_opt_u64, encryption::push_opt_u8
+// @bound m1 = all fields present (symbolic contents); m2 = m1 with one optional field removed, the tag list one entry shorter/longer, or a string one byte longer
+seal!(c09_seal_etag_stripped, F_ETAG, 1, 0);
+seal!(c09_seal_gen_stripped, F_GEN, 1, 0);
+seal!(c09_seal_commit_stripped, F_COMMIT, 1, 0);
+seal!(c09_seal_tags_truncated, F_TAGS_LEN, 1, 0);
+seal!(c09_seal_tags_extended, F_TAGS_LEN, 2, 0);
+seal!(c09_seal_gen_longer, F_GEN, 2, 0);
+
+// @check id=C09 tier=thorough cap=600 role=seal_covers_field_presence harness=c09_seal_otag_stripped,c09_seal_over_stripped,c09_seal_chunk_size_stripped,c09_seal_aad_version_stripped,c09_seal_etag_longer,c09_seal_otag_longer,c09_seal_over_longer
+// @fns encryption::metadata_auth_aad
+// @bound as above, remaining optional fields
+seal!(c09_seal_otag_stripped, F_OTAG, 1, 0);
+seal!(c09_seal_over_stripped, F_OVER, 1, 0);
+seal!(c09_seal_chunk_size_stripped, F_CHUNK, 1, 0);
+seal!(c09_seal_aad_version_stripped, F_AADV, 1, 0);
+seal!(c09_seal_etag_longer, F_ETAG, 2, 0);
+seal!(c09_seal_otag_longer, F_OTAG, 2, 0);
+seal!(c09_seal_over_longer, F_OVER, 2, 0);
+
+// other presence shapes of the base document (thorough): every optional field absent (a field
+// *added* by the tamper), and the sealed-v1 shape (no generation, no commit time)
+// @check id=C09 tier=thorough cap=600 role=seal_covers_field_other_shapes harness=c09_seal_absent_size,c09_seal_absent_etag_added,c09_seal_absent_otag_added,c09_seal_absent_over_added,c09_seal_absent_nonce,c09_seal_absent_chunk_size_added,c09_seal_absent_aad_version_added,c09_seal_absent_tag0,c09_seal_absent_gen_added,c09_seal_absent_commit_added,c09_seal_v1_size,c09_seal_v1_etag_bytes,c09_seal_v1_tag0,c09_seal_v1_gen_added,c09_seal_v1_commit_added,c09_seal_v1_tags_truncated
+// @fns encryption::metadata_auth_aad
+// @bound base document with every optional field absent / in the sealed-v1 shape; one field changed or added
+seal!(c09_seal_absent_size, F_SIZE, 0, 1);
+seal!(c09_seal_absent_etag_added, F_ETAG, 1, 1);
+seal!(c09_seal_absent_otag_added, F_OTAG, 1, 1);
+seal!(c09_seal_absent_over_added, F_OVER, 1, 1);
+seal!(c09_seal_absent_nonce, F_NONCE, 0, 1);
+seal!(c09_seal_absent_chunk_size_added, F_CHUNK, 1, 1);
+seal!(c09_seal_absent_aad_version_added, F_AADV, 1, 1);
+seal!(c09_seal_absent_tag0, F_TAG0, 0, 1);
+seal!(c09_seal_absent_gen_added, F_GEN, 1, 1);
+seal!(c09_seal_absent_commit_added, F_COMMIT, 1, 1);
+seal!(c09_seal_v1_size, F_SIZE, 0, 2);
+seal!(c09_seal_v1_etag_bytes, F_ETAG, 0, 2);
+seal!(c09_seal_v1_tag0, F_TAG0, 0, 2);
+seal!(c09_seal_v1_gen_added, F_GEN, 1, 2);
+seal!(c09_seal_v1_commit_added, F_COMMIT, 1, 2);
+seal!(c09_seal_v1_tags_truncated, F_TAGS_LEN, 1, 2);
+
+// Cross-field ambiguity the length prefixes exist to prevent: adjacent variable-length fields whose
+// concatenation is equal.
+// @check id=C09 tier=quick cap=600 role=seal_no_cross_field_ambiguity
+// @fns encryption::metadata_auth_aad
+// @bound e_tag / original_tag of lengths (2,1) vs (1,2) with symbolic bytes constrained to the same concatenation; everything else equal and symbolic
+#[kani::proof]
+#[kani::unwind(260)]
+fn c09_seal_adjacent_strings_do_not_merge() {
+    let loc = Path::from("k");
+    let m1 = base_meta(0);
+    let mut m2 = m1.clone();
+    let e1 = m1.e_tag.as_ref().unwrap().as_bytes(); // 2 bytes
+    let o1 = m1.original_tag.as_ref().unwrap().as_bytes(); // 1 byte
+    // shift the boundary: e2 = e1[0], o2 = e1[1] ++ o1[0]
+    m2.e_tag = Some(unsafe { String::from_utf8_unchecked(vec![e1[0]]) });
+    m2.original_tag = Some(unsafe { String::from_utf8_unchecked(vec![e1[1], o1[0]]) });
+    let a1 = metadata_auth_aad(&loc, &m1);
+    let a2 = metadata_auth_aad(&loc, &m2);
+    assert!(bytes_differ(&a1, &a2), "moving a byte across a field boundary changes the seal");
+    kani::cover!(a1.len() == a2.len(), "same total length");
+    std::mem::forget((m1, m2, a1, a2, loc));
+}
+
+// The optional tails: a generation whose bytes spell the commit-time tail must not be confusable
+// with (shorter generation + commit time).
+// @check id=C09 tier=quick cap=600 role=seal_no_tail_ambiguity
+// @fns encryption::metadata_auth_aad
+// @bound m1: generation = 12 symbolic bytes (any bytes, incl. ".m" + 8), no commit time; m2: generation = 2 symbolic bytes + commit time Some(symbolic); rest equal
+#[kani::proof]
+#[kani::unwind(260)]
+fn c09_seal_optional_tails_do_not_merge() {
+    let loc = Path::from("k");
+    let mut m1 = base_meta(1);
+    let mut m2 = m1.clone();
+    let g1: [u8; 12] = kani::any();
+    let g2: [u8; 2] = kani::any();
+    kani::assume(g1[0] < 0x80 && g1[1] < 0x80 && g1[2] < 0x80 && g1[3] < 0x80 && g1[4] < 0x80 && g1[5] < 0x80);
+    kani::assume(g1[6] < 0x80 && g1[7] < 0x80 && g1[8] < 0x80 && g1[9] < 0x80 && g1[10] < 0x80 && g1[11] < 0x80);
+    kani::assume(g2[0] < 0x80 && g2[1] < 0x80);
+    m1.generation = Some(unsafe { String::from_utf8_unchecked(g1.to_vec()) });
+    m1.committed_at_ms = None;
+    m2.generation = Some(unsafe { String::from_utf8_unchecked(g2.to_vec()) });
+    m2.committed_at_ms = Some(kani::any());
+    let a1 = metadata_auth_aad(&loc, &m1);
+    let a2 = metadata_auth_aad(&loc, &m2);
+    assert!(bytes_differ(&a1, &a2), "generation-only and generation+commit-time documents never share a seal");
+    kani::cover!(a1.len() == a2.len(), "same total length (12 = 2 + 2 + 8)");
+    kani::cover!(g1[2] == b'.' && g1[3] == b'm', "generation spelling the commit-time marker");
+    // generation only vs commit time only
+    let mut m3 = m2.clone();
+    m3.generation = None;
+    let a3 = metadata_auth_aad(&loc, &m3);
+    assert!(bytes_differ(&a1, &a3) && bytes_differ(&a2, &a3), "commit-time-only differs from both");
+    std::mem::forget((m1, m2, m3, a1, a2, a3, loc));
+}
+
+// The logical path is bound: the same document under another key has another seal (object swap).
+fn seal_binds_location(p1: &'static str, p2: &'static str) {
+    let m = base_meta(1);
+    let (l1, l2) = (Path::from(p1), Path::from(p2));
+    let a1 = metadata_auth_aad(&l1, &m);
+    let a2 = metadata_auth_aad(&l2, &m);
+    assert!(bytes_differ(&a1, &a2), "a metadata document moved to another key no longer verifies");
+    kani::cover!(a1.len() > 39 + 8 + 8, "seal contains prefix, path and size");
+    std::mem::forget((m, a1, a2, l1, l2));
+}
+// @check id=C09 tier=quick cap=600 role=seal_binds_location
+// @fns encryption::metadata_auth_aad
+// @bound the same symbolic document (optional fields absent) sealed under two concrete sibling paths "a/b" and "a/c" (Path parsing of symbolic bytes, or a symbolic choice of path, is out of reach: timed out at 300 s)
+#[kani::proof]
+#[kani::unwind(260)]
+fn c09_seal_binds_location_sibling() {
+    seal_binds_location("a/b", "a/c");
+}
+// @check id=C09 tier=quick cap=600 role=seal_binds_location
+// @fns encryption::metadata_auth_aad
+// @bound as above for paths of different length, "ab" vs "a/b"
+#[kani::proof]
+#[kani::unwind(260)]
+fn c09_seal_binds_location_length() {
+    seal_binds_location("ab", "a/b");
+}
+
+// K4 -------------------------------------------------------------------------------------------
+// verify_metadata returns before touching the cipher unless both auth fields are present, so the
+// pre-cipher decision can be run with a cipher reference that is never dereferenced.
+// @check id=C09 tier=quick cap=600 role=downgrade_truth_table
+// @fns encryption::verify_metadata, encryption::chunk_aad_version
+// @bound every presence combination of (auth_nonce, auth_tag) except (Some,Some); chunk_aad_version None or any u8; generation None/Some; strict symbolic; other contents symbolic
+// @stubs alloc::fmt::format -> String::new() (error messages only)
+// @assume log::warn! with no logger installed is a no-op
+#[kani::proof]
+#[kani::unwind(8)]
+#[kani::stub(alloc::fmt::format, fmt_stub)]
+fn c09_unauthenticated_metadata_downgrade_table() {
+    let loc = Path::from("k");
+    let mut m = base_meta(1);
+    let has_nonce: bool = kani::any();
+    let has_tag: bool = kani::any();
+    kani::assume(!(has_nonce && has_tag));
+    m.auth_nonce = if has_nonce { Some(ByteArray::from(kani::any::<[u8; 12]>())) } else { None };
+    m.auth_tag = if has_tag { Some(ByteArray::from(kani::any::<[u8; 16]>())) } else { None };
+    m.chunk_aad_version = if kani::any() { Some(kani::any()) } else { None };
+    let has_gen: bool = kani::any();
+    m.generation = if has_gen { Some(String::from("g")) } else { None };
+    let strict: bool = kani::any();
+    // never dereferenced on these paths (a must-fail twin / the unit tests cover the sealed path)
+    let cipher: Aes256Gcm = unsafe { std::mem::zeroed() };
+    let r = verify_metadata(&cipher, &loc, &m, strict);
+    let genuine_legacy = !has_nonce && !has_tag && m.chunk_aad_version.is_none() && !has_gen && !strict;
+    match &r {
+        Ok(MetadataAuth::Legacy) => assert!(genuine_legacy, "unauthenticated metadata is accepted only as genuine legacy: no AAD version, no generation, not strict"),
+        Ok(MetadataAuth::Authenticated) => assert!(false, "never Authenticated without both auth fields"),
+        Err(_) => assert!(!genuine_legacy, "genuine legacy metadata stays readable in non-strict mode"),
+    }
+    if has_nonce != has_tag {
+        assert!(r.is_err(), "half-stripped authentication fields are rejected");
+    }
+    kani::cover!(matches!(r, Ok(MetadataAuth::Legacy)), "legacy accepted");
+    kani::cover!(r.is_err() && !has_nonce && !has_tag && has_gen && !strict, "stripped seal on a generation document rejected");
+    kani::cover!(r.is_err() && !has_nonce && !has_tag && !has_gen && m.chunk_aad_version.is_some() && !strict, "stripped seal with AAD version rejected");
+    kani::cover!(r.is_err() && has_nonce && !has_tag, "tag stripped only");
+    std::mem::forget((r, m, loc, cipher));
+}
+
+// chunk AAD selection: sealed documents default to the bound AAD, unsealed to the legacy (empty)
+// one; an unknown version is an error everywhere.
+// @check id=C09 tier=quick cap=600 role=chunk_aad_version
+// @fns encryption::chunk_aad_version, encryption::chunk_aad_for_meta, encryption::chunk_aad
+// @bound chunk_aad_version None or any u8; auth fields present/absent symbolically; chunk size and index full-width
+// @stubs alloc::fmt::format -> String::new() (error messages only)
+#[kani::proof]
+#[kani::unwind(60)]
+#[kani::stub(alloc::fmt::format, fmt_stub)]
+fn c09_chunk_aad_version_selection() {
+    let mut m = base_meta(1);
+    let sealed: bool = kani::any();
+    if sealed {
+        m.auth_nonce = Some(ByteArray::from(kani::any::<[u8; 12]>()));
+        m.auth_tag = Some(ByteArray::from(kani::any::<[u8; 16]>()));
+    }
+    let v: Option<u8> = if kani::any() { Some(kani::any()) } else { None };
+    m.chunk_aad_version = v;
+    let (cs, ci): (u64, u64) = (kani::any(), kani::any());
+    let got = chunk_aad_for_meta(&m, cs, ci);
+    let eff = v.unwrap_or(if sealed { 1 } else { 0 });
+    match &got {
+        Ok(aad) => {
+            assert!(eff <= 1, "unknown AAD version is rejected");
+            if eff == 1 {
+                let want = chunk_aad(cs, ci);
+                assert!(!bytes_differ(aad, &want), "bound version binds (chunk_size, index)");
+                std::mem::forget(want);
+            } else {
+                assert!(aad.is_empty(), "legacy version uses the empty AAD");
+            }
+        }
+        Err(_) => assert!(eff > 1, "known versions are accepted"),
+    }
+    kani::cover!(got.is_ok() && sealed && v.is_none(), "sealed document defaults to the bound AAD");
+    kani::cover!(got.is_ok() && !sealed && v.is_none(), "unsealed document defaults to the legacy AAD");
+    kani::cover!(got.is_err(), "unknown version");
+    std::mem::forget((got, m));
+}
+
+// @check id=C09 tier=thorough cap=300 expect=fail role=witness
+// @fns encryption::metadata_auth_aad
+// @bound vacuity twin: must come back FAILED
+#[kani::proof]
+#[kani::unwind(260)]
+fn c09_witness_must_fail() {
+    let loc = Path::from("k");
+    let m1 = base_meta(0);
+    let m2 = tamper(&m1, F_SIZE, 0);
+    let a1 = metadata_auth_aad(&loc, &m1);
+    let a2 = metadata_auth_aad(&loc, &m2);
+    let d = bytes_differ(&a1, &a2);
+    std::mem::forget((m1, m2, a1, a2, loc));
+    assert!(!d && false, "reachability witness");
+}
